@@ -114,8 +114,56 @@ fn run(len: usize) {
     witness("end");
 }
 
+/// the migrate entry point of the new code emits admin operations as sub-messages: they are checked
+/// against the MIGRATED CONTRACT as sender (found missing by seed C12b)
+fn migrate_emitting_admin_ops() {
+    let mut app = App::default();
+    let admin = addr("admin");
+    let code1 = app.store_code(sc::contract());
+    let code2 = app.store_code(sc::contract_v2());
+    let p = app.instantiate_contract(code1, admin.clone(), &Script::new(), &[], "p", Some(admin.to_string())).unwrap();
+    // v is administered by the same user; c is administered by the contract p
+    let v_ = app.instantiate_contract(code1, admin.clone(), &Script::new(), &[], "v", Some(admin.to_string())).unwrap();
+    let c = app.instantiate_contract(code1, admin.clone(), &Script::new(), &[], "c", Some(p.to_string())).unwrap();
+    let legit = choose(2) == 1;
+    let target = if legit { c.clone() } else { v_.clone() };
+    let op: CosmosMsg = match choose(2) {
+        0 => WasmMsg::ClearAdmin { contract_addr: target.to_string() }.into(),
+        _ => WasmMsg::UpdateAdmin { contract_addr: target.to_string(), admin: addr("stranger").to_string() }.into(),
+    };
+    let before = snapshot(&app);
+    let r = catch(|| app.migrate_contract(admin.clone(), p.clone(), &Script::new().write("migrating", "1").sub(op.clone(), ReplyOn::Never, 1, None), code2));
+    let r = match r {
+        Ok(r) => r,
+        Err(e) => {
+            failure("no_panic", "panic", e);
+            return;
+        }
+    };
+    match (r, legit) {
+        (Ok(_), true) => {
+            witness("nested_allowed");
+            let cd = app.contract_data(&c).unwrap();
+            check_native("admin_change_is_visible_immediately", cd.admin != Some(p.clone()), || format!("{:?}", cd.admin));
+        }
+        (Err(_), false) => {
+            witness("nested_denied");
+            check_unchanged("denied_attempt_leaves_code_admin_and_storage_unchanged", &app, &before);
+        }
+        (Ok(_), false) => {
+            check_native("only_the_current_admin_may_do_this", false, || "a contract changed the admin of a contract it does not administer, from inside its migration".into());
+        }
+        (Err(e), true) => {
+            check_native("the_current_admin_may_do_this", false, || format!("{:#}", e));
+        }
+    }
+}
+
 pub fn scenarios(tier: &str) -> Vec<Scenario> {
-    let mut v = vec![Scenario::new("sequences_of_2", &["allowed_ok", "denied", "migrated", "end"], || run(2))];
+    let mut v = vec![
+        Scenario::new("sequences_of_2", &["allowed_ok", "denied", "migrated", "end"], || run(2)),
+        Scenario::new("migration_emitting_admin_operations", &["nested_allowed", "nested_denied"], migrate_emitting_admin_ops),
+    ];
     if tier == "thorough" {
         v.push(Scenario::new("sequences_of_3", &["allowed_ok", "denied", "migrated", "end"], || run(3)));
     }
